@@ -139,7 +139,7 @@ def configurations(tier):
     pres = [()] + [(m,) for m in mods]
     pairs = list(itertools.permutations(mods, 2))      # both import orders
     # unknown names include proper substrings / superstrings of known ones
-    envs = [None] + [n for n, _ in REGISTRY] + ["nosuchbackend", "zkif", "js", "snark", "backend", "qaptools2", "Snarkjs", "", " snarkjs", "pysnark.nobackend", "pysnark.snarkjsbackend", "nobackend ", "pysnark.zkinterface.backend"]
+    envs = [None] + [n for n, _ in REGISTRY] + ["nosuchbackend", "zkif", "js", "snark", "backend", "qaptools2", "Snarkjs", "NoBackend", "ZKINTERFACE", "", " snarkjs", "pysnark.nobackend", "pysnark.snarkjsbackend", "nobackend ", "pysnark.zkinterface.backend"]
     loads = [dict(flatbuffers=f, qaptools=q, libsnark=l) for f in (True, False) for q in (True, False) for l in (True, False)]
     out = []
     if tier == "quick":
